@@ -76,8 +76,11 @@ def replay(rep, runs, binaries, what, prop, gc="default", known_ok=True):
     for r in runs:
         if r["result"]["kind"] == "Stuck":
             rep.violation("the reference machine got stuck (the specification must be total): %r" % (r["result"],),
-                          {"prog": yprog.program_src(r["prog"])})
+                          {"prog": r["prog"]})
     progs = [(r["id"], r["prog"]) for r in usable]
+    src_of = lambda body: (yprog.program_src(body) if not isinstance(body, dict) else
+                           "\n--- next snippet ---\n".join("<reset>" if sn.get("reset") else (sn.get("src") or yprog.program_src(sn["prog"])) for sn in body["snips"])
+                           + "".join("\n--- module %s ---\n%s" % (md["path"], md.get("src") or yprog.program_src(md["prog"])) for md in body.get("mods", [])))
     ncmp = 0
     for bname, binary in binaries:
         impl = mrun.impl_run(binary, progs, gc=gc)
@@ -93,6 +96,6 @@ def replay(rep, runs, binaries, what, prop, gc="default", known_ok=True):
                     rep.known_finding(k, "%s (%s)" % (findings[k]["what"], k))
                 continue
             rep.violation("%s (%s build): %s" % (what, bname, msg),
-                          {"source": yprog.program_src(r["prog"]), "spec": {k: r[k] for k in ("out", "result", "trig")},
+                          {"source": src_of(r["prog"]), "spec": {k: r.get(k) for k in ("out", "result", "trig", "runs")},
                            "impl": impl[r["id"]], "tokens": r["prog"]})
     return ncmp, len(usable)
